@@ -212,11 +212,15 @@ func runTamper(tier string, seed int64, summaryPath, outPath string) {
 				// 2. transaction-level fields
 				add("flip.trx.subject", true, func(v *accountant.Vertex) { v.Transaction.Subject = flipStr(v.Transaction.Subject) })
 				if len(v0.Transaction.Data) > 0 {
-					add("flip.trx.data", true, func(v *accountant.Vertex) { v.Transaction.Data[rng.Intn(len(v.Transaction.Data))] ^= 1 << uint(rng.Intn(8)) })
+					add("flip.trx.data", true, func(v *accountant.Vertex) {
+						v.Transaction.Data[rng.Intn(len(v.Transaction.Data))] ^= 1 << uint(rng.Intn(8))
+					})
 				}
 				add("flip.trx.issuer_address", true, func(v *accountant.Vertex) { v.Transaction.IssuerAddress = flipStr(v.Transaction.IssuerAddress) })
 				add("flip.trx.receiver_address", true, func(v *accountant.Vertex) { v.Transaction.ReceiverAddress = flipStr(v.Transaction.ReceiverAddress) })
-				add("flip.trx.created_at", true, func(v *accountant.Vertex) { v.Transaction.CreatedAt = v.Transaction.CreatedAt.Add(time.Duration(1 + rng.Intn(1000))) })
+				add("flip.trx.created_at", true, func(v *accountant.Vertex) {
+					v.Transaction.CreatedAt = v.Transaction.CreatedAt.Add(time.Duration(1 + rng.Intn(1000)))
+				})
 				add("flip.trx.currency", true, func(v *accountant.Vertex) { v.Transaction.Spice.Currency ^= 1 << uint(rng.Intn(64)) })
 				add("flip.trx.supplementary", true, func(v *accountant.Vertex) { v.Transaction.Spice.SupplementaryCurrency ^= 1 << uint(rng.Intn(59)) })
 				add("flip.trx.hash", true, func(v *accountant.Vertex) { v.Transaction.Hash[rng.Intn(32)] ^= 1 << uint(rng.Intn(8)) })
@@ -230,7 +234,9 @@ func runTamper(tier string, seed int64, summaryPath, outPath string) {
 				}
 			}
 			// 3. truncation / extension of byte fields
-			add("len.trx.subject.drop_last", true, func(v *accountant.Vertex) { v.Transaction.Subject = v.Transaction.Subject[:len(v.Transaction.Subject)-1] })
+			add("len.trx.subject.drop_last", true, func(v *accountant.Vertex) {
+				v.Transaction.Subject = v.Transaction.Subject[:len(v.Transaction.Subject)-1]
+			})
 			add("len.trx.subject.extend", true, func(v *accountant.Vertex) { v.Transaction.Subject += "x" })
 			add("len.trx.data.extend", true, func(v *accountant.Vertex) { v.Transaction.Data = append(v.Transaction.Data, 7) })
 			if len(v0.Transaction.Data) > 0 {
